@@ -206,15 +206,14 @@ def r3_r4(ctx, rep):
               "the relation's declared columns must be the value push_select returned", file=lr["file"], line=lr["l"], fn=lr["path"])
     # push_select: unzip -> Select(cids), Ok(cols)
     ps = syn.fn("Lowerer::push_select", crate="prqlc")
-    un = [n for n in walk(ps["body"]) if n.get("k") == "local" and show(n["pat"]) == "(cols, cids)"]
-    ok = bool(un) and show(un[0]["init"]) == "columns.into_iter().unzip()"
-    rep.check(ok, "unzip", "names and ids of the closing Select must come from ONE list (`columns.into_iter().unzip()`): same arity, same order", file=ps["file"], line=ps["l"], fn=ps["path"])
+    shp = push_select_shape(syn)
+    rep.check(shp["ok_unzip"], "unzip", "names and ids of the closing Select must come from ONE list (`<list>.into_iter().unzip()`): same arity, same order", file=ps["file"], line=ps["l"], fn=ps["path"])
 
     def sel(n):
-        return n.get("k") == "mcall" and n["m"] == "push" and show(n["r"]) == "transforms" and show(n["a"][0]) == "Transform::Select(cids)"
+        return n.get("k") == "mcall" and n["m"] == "push" and show(n["r"]) == "transforms" and show(n["a"][0]) == f"Transform::Select({shp['ids']})"
     bad = flow.must_precede_exits(ps["body"], sel)
-    rep.check(not bad, "select-on-every-exit", f"every Ok exit of push_select must have pushed Transform::Select(cids); offending exits {bad}", file=ps["file"], line=ps["l"], fn=ps["path"])
-    rep.check(show(tail_expr(ps["body"])) == "Ok(cols)", "returns-cols", "push_select must return the column list paired with the pushed ids", file=ps["file"], line=ps["l"], fn=ps["path"])
+    rep.check(not bad, "select-on-every-exit", f"every Ok exit of push_select must have pushed Transform::Select(<the ids of the unzip>); offending exits {bad}", file=ps["file"], line=ps["l"], fn=ps["path"])
+    rep.check(show(tail_expr(ps["body"])) == f"Ok({shp['cols']})", "returns-cols", "push_select must return the column list paired with the pushed ids", file=ps["file"], line=ps["l"], fn=ps["path"])
     # lower_pipeline base case pushes From unless the expression is the closure parameter
     lp = syn.fn("Lowerer::lower_pipeline", crate="prqlc")
     ok = False
@@ -229,6 +228,20 @@ def r3_r4(ctx, rep):
                         if i2.get("k") == "if" and show(i2["c"]) == "(Some(target) == closure_param)" and "return Ok(())" in show_stmts(i2["t"]):
                             ok = True
     rep.check(ok, "starts-with-from", "the base case of lower_pipeline must push Transform::From(table_ref), except when the expression is the closure parameter of a loop body", file=lp["file"], line=lp["l"], fn=lp["path"])
+
+
+def push_select_shape(syn):
+    """role-based facts about Lowerer::push_select: the list that is unzipped, the names given to its two halves"""
+    ps = syn.fn("Lowerer::push_select", crate="prqlc")
+    un = [n for n in walk(ps["body"]) if n.get("k") == "local" and n["pat"].get("k") == "p_tuple" and len(n["pat"]["e"]) == 2
+          and n.get("init", {}).get("k") == "mcall" and n["init"]["m"] == "unzip"]
+    out = {"ok_unzip": False, "cols": "?", "ids": "?", "list": "?"}
+    if len(un) == 1:
+        i = un[0]["init"]
+        cols, ids = [show(x).replace("mut ", "") for x in un[0]["pat"]["e"]]
+        lst = i["r"]["r"] if i["r"].get("k") == "mcall" and i["r"]["m"] == "into_iter" else None
+        out = {"ok_unzip": lst is not None and lst.get("k") == "path", "cols": cols, "ids": ids, "list": show(lst) if lst is not None else "?"}
+    return out
 
 
 def r5(ctx, rep):
